@@ -143,8 +143,13 @@ class OperandChanged(Exception):
     """a member object handed to a collection constructor no longer answers as it did before the call"""
 
 
+_WATCH = []
+
+
 def _member_view(m):
     return (tuple(sorted(getattr(m, "feature_types", None) or ())), m.start, m.end, m.strand,
+            getattr(m, "is_primary_tx", None), getattr(m, "is_primary_feature", None),
+            getattr(m, "_is_primary_feature", None),
             tuple((b.start, b.end) for b in m.chromosome_location.blocks), str(m.guid),
             tuple(sorted((k, tuple(sorted(map(str, v)))) for k, v in (m.qualifiers or {}).items())))
 
@@ -154,11 +159,21 @@ def _checked_members(members, build):
     children; a constructor that rewrites its children would make the next aggregate built from them wrong)"""
     before = [_member_view(m) for m in members]
     out = build(members)
-    after = [_member_view(m) for m in members]
-    if before != after:
-        i = next(k for k in range(len(members)) if before[k] != after[k])
-        raise OperandChanged(f"member {i}: {before[i]} -> {after[i]}")
+    _WATCH.append((list(members), before))      # compared again after the aggregate has been asked its questions
+    _verify_watch(clear=False)
     return out
+
+
+def _verify_watch(clear=True):
+    try:
+        for members, before in _WATCH:
+            after = [_member_view(m) for m in members]
+            if before != after:
+                i = next(k for k in range(len(members)) if before[k] != after[k])
+                raise OperandChanged(f"member {i}: {before[i]} -> {after[i]}")
+    finally:
+        if clear:
+            del _WATCH[:]
 
 
 def _eq(a, b):
@@ -231,6 +246,33 @@ def impl_agg_op(line):
             assert fc.is_coding is False
             ts = sorted(fc.feature_types)
             return f"ok {fc.start} {fc.end} {p} " + " ".join([str(len(ts))] + [enc(x) for x in ts])
+        if op == "acollk":
+            lo, hi = int(t.next()), int(t.next())
+            parent = _chunk_parent(lo, hi, "+")
+            bs, be = t.next(), t.next()
+            gb, fb = t.blocks(), t.blocks()
+            genes = [L["GeneInterval"]([mk_tx(100 * i, dict(strand="+", primary=False, blocks=[(s, e)], cds=[], types=[]),
+                                              parent)],
+                                       gene_type=L["Biotype"].protein_coding, gene_id=f"g{i}",
+                                       parent_or_seq_chunk_parent=parent) for i, (s, e) in enumerate(gb)]
+            fcs = [L["FeatureIntervalCollection"]([mk_feat(100 * i, dict(strand="+", primary=False, blocks=[(s, e)],
+                                                                        types=[]), parent)],
+                                                  feature_collection_id=f"f{i}", parent_or_seq_chunk_parent=parent)
+                   for i, (s, e) in enumerate(fb)]
+            kw = {}
+            if bs != "-":
+                kw["start"] = int(bs)
+            if be != "-":
+                kw["end"] = int(be)
+            ac = L["AnnotationCollection"](feature_collections=fcs, genes=genes, parent_or_seq_chunk_parent=parent, **kw)
+            order = []
+            for ch in ac.iter_children():
+                if any(ch is g for g in genes):
+                    order.append(f"g {_idx(genes, ch)}")
+                else:
+                    order.append(f"f {_idx(fcs, ch)}")
+            bounds = f"{ac.start} {ac.end}" if hasattr(ac, "start") else "None"
+            return (f"ok {len(ac)} {1 if ac.is_empty else 0} {bounds} {len(order)} " + " ".join(order)).strip()
         if op in ("acoll", "acollp"):
             parent = None
             if op == "acollp":
@@ -265,4 +307,10 @@ def impl_agg_op(line):
             bounds = f"{ac.start} {ac.end}" if hasattr(ac, "start") else "None"
             return (f"ok {len(ac)} {1 if ac.is_empty else 0} {bounds} {len(order)} " + " ".join(order)).strip()
         raise KeyError(op)
-    return guarded(go)
+
+    def checked():
+        del _WATCH[:]
+        ans = go()
+        _verify_watch()
+        return ans
+    return guarded(checked)
